@@ -217,6 +217,10 @@ fn main() {
             let mref = oxidd::bcdd::new_manager(1 << 16, 1 << 10, 1);
             let vars: Vec<oxidd::bcdd::BCDDFunction> = mref.with_manager_exclusive(|m| m.add_vars(NV as u32).map(|v| oxidd::bcdd::BCDDFunction::var(m, v).unwrap()).collect());
             (mref, vars) }),
+        "zbdd" if group == "reorder" => run_reorder("zbdd", || {
+            let mref = oxidd::zbdd::new_manager(1 << 16, 1 << 10, 1);
+            let vars: Vec<oxidd::zbdd::ZBDDFunction> = mref.with_manager_exclusive(|m| m.add_vars(NV as u32).map(|v| oxidd::zbdd::ZBDDFunction::var(m, v).unwrap()).collect());
+            (mref, vars) }),
         "bdd" => {
             let mref = oxidd::bdd::new_manager(1 << 16, 1 << 10, 1);
             let vars: Vec<oxidd::bdd::BDDFunction> = mref.with_manager_exclusive(|m| m.add_vars(NV as u32).map(|v| oxidd::bdd::BDDFunction::var(m, v).unwrap()).collect());
